@@ -157,6 +157,13 @@ impl State {
         (self.data_stack.len(), self.heap.len(), self.insn_meter)
     }
 
+    /// Highest data stack length (incl. hidden part) reached since the previous call; resets the mark to the current length.
+    pub fn verif_take_stack_peak(&mut self) -> usize {
+        let peak = self.verif_stack_peak.max(self.data_stack.len());
+        self.verif_stack_peak = self.data_stack.len();
+        peak
+    }
+
     /// Configured limits (instructions, stack, heap).
     pub fn verif_limits(&self) -> (Option<usize>, Option<usize>, Option<usize>) {
         (self.insn_limit, self.stack_limit, self.heap_limit)
